@@ -223,6 +223,7 @@ def s5(ctx):
             if lw == 'T':
                 handoff = 1
         n = len(pushes) + len(sends) + handoff
+        ctx.instance('%s result %s' % (b.key, rk))
         ctx.oblige(1, sample='%s [%s] -> %s with %d push, %d direct, %d hand-off' % (b.key, p.signature(), rk, len(pushes), len(sends), handoff))
         if rk == 'ok':
             if n != 1:
